@@ -196,6 +196,30 @@ def run(ctx):
             ctx.candidate(sig, "recorded LRU step not allowed by the model at event %d of its trace: %s (after %s)" % (
                 pos, json.dumps(bad), json.dumps(sl[max(0, pos - 2):pos])), dict(kind="trace", events=sl, failing=pos))
 
+    # 4. large capacities (spec/LRUBig.tla): the single operations agree with LRU.tla in lockstep and the closed form of
+    #    Fill equals the iterated Store at small scope (MC_LRUBig); recordings of the real cache at capacities around
+    #    powers of two up to 70 000 are validated against Trace_LRUBig (a fill of 10^5 Stores is one event)
+    mcb = ctx.tlc("MC_LRUBig", "MC_LRUBig", workers=4)
+    big_caps = [513, 1025, 4099, 8200, 16390, 32771, 65540] + ([] if quick else [70000, 131075, 262150])
+    bp = ctx.path("lrubig.ndjson")
+    ctx.run_vh(vh, ["lru-big", "-caps", ",".join(str(c) for c in big_caps), "-out", bp])
+    bres = ctx.tlc("Trace_LRUBig", "Trace_LRUBig", workers=1, env={"TRACE": bp}, expect_ok=False, timeout=1800, heap="8g")
+    bevs = common.read_ndjson(bp)
+    brej = bres.vecs.get("REJECT")
+    if brej:
+        line = brej[0]["line"]
+        bad = bevs[min(line, len(bevs)) - 1]
+        s0 = max(i for i in range(line) if bevs[i]["e"] == "reset")
+        short = dict(bad)
+        if len(short.get("cb") or []) > 12:
+            short["cb"] = short["cb"][:6] + ["...(%d)" % len(bad["cb"])] + short["cb"][-6:]
+        ctx.candidate(dict(src="bigtrace", op=bad["e"], cap=bevs[s0]["cap"]),
+                      "large-capacity recording (capacity %d) not allowed by LRUBig at event %d of its run: %s" % (
+                          bevs[s0]["cap"], line - s0, json.dumps(short)), dict(kind="bigtrace", caps=[bevs[s0]["cap"]]))
+    elif not bres.ok:
+        raise MachineryError("Trace_LRUBig did not complete:\n" + bres.raw[-2000:])
+    big_stores = sum(e["b"] - e["a"] + 1 for e in bevs if e["e"] == "fill")
+
     try:
         apa = apa_f.result(timeout=900)
     except Exception as e:  # noqa
@@ -215,6 +239,7 @@ def run(ctx):
         samples=[edges[len(edges) // 2], sample],
         mc_distinct_states=mc.distinct,
         apalache_inductive_invariant=apa,
+        big_capacities=big_caps, big_events=len(bevs), big_stores=big_stores, mc_lrubig_states=mcb.distinct,
     )
     if not quick and mc.coverage_zero:
         raise MachineryError("vacuous: actions never taken in MC_LRU: %s" % mc.coverage_zero[:5])
@@ -227,7 +252,14 @@ def run(ctx):
 
 def replay(ctx, vh):
     r = json.load(open(ctx.replay))["replay"]
-    if r["kind"] == "edge":
+    if r["kind"] == "bigtrace":
+        bp = ctx.path("lrubig.ndjson")
+        ctx.run_vh(vh, ["lru-big", "-caps", ",".join(str(c) for c in r["caps"]), "-out", bp])
+        bres = ctx.tlc("Trace_LRUBig", "Trace_LRUBig", workers=1, env={"TRACE": bp}, expect_ok=False, timeout=1800, heap="8g")
+        if bres.vecs.get("REJECT"):
+            line = bres.vecs["REJECT"][0]["line"]
+            ctx.candidate(dict(src="bigtrace", cap=r["caps"][0]), "replayed large-capacity run still rejected at event %d" % line, r)
+    elif r["kind"] == "edge":
         ep = ctx.path("edge.ndjson")
         common.write_ndjson(ep, [r["edge"]])
         out = ctx.run_vh(vh, ["lru-edges"], stdin_path=ep, extra_env={"VERIF_LRU_KEYS": r.get("codec", "str")}).stdout
